@@ -219,6 +219,21 @@ macro_rules! radix {
 
                 match radix {
                     2 | 4 | 16 | 256 => {
+                        // leading zeros do not contribute to the value, so they must not count towards the capacity check below
+                        let zero_digit = if FROM_STR { b'0' } else { 0 };
+                        let mut input_digits_len = input_digits_len;
+                        if BE {
+                            let mut i = if leading_sign { 1 } else { 0 };
+                            while input_digits_len > 0 && buf[i] == zero_digit {
+                                i += 1;
+                                input_digits_len -= 1;
+                            }
+                        } else {
+                            while input_digits_len > 0 && buf[input_digits_len - 1] == zero_digit {
+                                input_digits_len -= 1;
+                            }
+                        }
+
                         let mut out = Self::ZERO;
                         let base_digits_per_digit = (digit::$Digit::BITS_U8 / ilog2(radix)) as usize;
                         let full_digits = input_digits_len / base_digits_per_digit as usize;
